@@ -10,7 +10,7 @@ META = {
               "coap_path_into_optlist / coap_query_into_optlist, (3) coap_send_internal of a Confirmable (node allocation after the "
               "write), (4) coap_get_uri_path / coap_get_query / coap_new_error_response, (5) coap_uri_into_optlist, (6) observe registration "
               "(coap_add_observer incl. coap_pdu_duplicate_lkd; failing allocation k concrete 0..5, token symbolic), (7) coap_add_data_large_request_lkd "
-              "for a body that needs transfer state (lg_xmit, app token, skeletal PDU; index of the failing allocation SYMBOLIC 0..4), (8) coap_block_build_body: first block + growth, any subset. Obligations: documented error return, "
+              "for a body that needs transfer state (lg_xmit, app token, skeletal PDU; index of the failing allocation SYMBOLIC 0..4), (8) coap_block_build_body: first block + growth, any subset, (9) the /.well-known/core GET handler with the block layer as a contract stub that may refuse the body. Obligations: documented error return, "
               "accepted part of the message intact (accessor model), nothing leaked (CBMC memory-leak check), no double free / use "
               "after free (CBMC deallocated-object checks), PDU given to send consumed exactly once, the same operation succeeds "
               "once memory is available.",
@@ -52,4 +52,8 @@ def jobs():
                   remove_bodies=[r for r in RB_CLIENT if r != "coap_block_new_lg_crcv"], unwind=50, flags=FS, timeout=900, est_gb=6,
                   group="scenario-large", desc="coap_add_data_large_request_lkd (Block1 transfer state for a 100-byte body): the k-th allocation fails, k symbolic 0..4",
                   bounds={"scenario": "large", "failing allocation": "symbolic 0..4 (4 = none fails)"}))
+    js.append(Job("scenario-wellknown", "C20/c20b.c", "c20_b2_handler", UNITS, extra_src=EXTRA, defines=d + ["PL=3", "ENV_LOG_QUIET"],
+                  remove_bodies=RB_CLIENT + ["coap_add_data_large_response_lkd"], unwind=24, flags=FS, timeout=900, est_gb=4,
+                  desc="GET /.well-known/core handler with block support: any subset of allocations fails and/or the block layer refuses the body (after releasing it)",
+                  bounds={"scenario": "wellknown", "resources": 1}))
     return js
